@@ -232,7 +232,7 @@ def forms_rules(repo, rep):
                          expected='K(fields, positive=True) if x >= 0 else K(fields, positive=False)', actual=stmt_text(r)[:140] if r is not None else 'no return')
     # digit scalings of hp2dms / hp2ddm / dec2dms / dec2ddm (magnitude part) against the reference digit arithmetic
     orc = Oracle(DIGITS)
-    for q, oname in (('hp2dms', 'hp_fields_dms'), ('hp2ddm', 'hp_fields_ddm'), ('dec2dms', 'dec_fields_dms'), ('dec2ddm', 'dec_fields_ddm')):
+    for q, oname in (('dec2dms', 'dec_fields_dms'), ('dec2ddm', 'dec_fields_ddm')):
         f = m.func(q)
         ev2 = Evaluator(repo, opaque={'DMSAngle.__init__', 'DDMAngle.__init__'}, summaries={'DMSAngle.__init__': _capture, 'DDMAngle.__init__': _capture})
         got = ev2.call_function(f, {f.params[0].name: x})
@@ -245,7 +245,7 @@ def forms_rules(repo, rep):
             lv = [got, got]
         if len(lv) == 2 and all(isinstance(z, Tup) for z in lv):
             n_f = len(ref.items)
-            check_equal(rep, 'R-TABLE', key, where(f, f.node), Tup(lv[0].items[:n_f]), ref, '%s: degree/minute/second digits (x1000, divmod 10, divmod 100, x10 resp. x3600, divmod 60)' % q)
+            check_equal(rep, 'R-TABLE', key, where(f, f.node), Tup(lv[0].items[:n_f]), ref, '%s: degree/minute/second fields (x3600, divmod 60, divmod 60)' % q)
         else:
             rep.undecided('R-TABLE', key, where(f, f.node), '%s: constructor arguments not captured' % q)
     # sign inference of the DMS / DDM constructors over the finite set of sign patterns
@@ -323,87 +323,6 @@ def dec_fields_ddm(v):
 '''
 
 
-def validators(repo):
-    """(function, precision, {field: smallest rejected value}) for every HP-notation validator: a function that renders a
-    number with f'{x:.Nf}' and raises when a digit / digit group of the decimals is too large"""
-    m = repo.module('geodepy.angles')
-    out = []
-    for f in m.all_functions():
-        prec = None
-        for n in ast.walk(f.node):
-            if isinstance(n, ast.FormattedValue) and n.format_spec is not None:
-                spec = ''.join(str(c.value) for c in n.format_spec.values if isinstance(c, ast.Constant))
-                mm = re.match(r'^\.(\d+)f$', spec)
-                if mm:
-                    prec = int(mm.group(1))
-        fields = {}
-        odd = []
-        for n in ast.walk(f.node):
-            if isinstance(n, ast.If) and any(isinstance(b, ast.Raise) for b in n.body) and isinstance(n.test, ast.Compare) and len(n.test.ops) == 1:
-                t = n.test
-                if isinstance(t.left, ast.Call) and getattr(t.left.func, 'id', '') == 'int' and t.left.args and isinstance(t.left.args[0], ast.Subscript) \
-                        and isinstance(t.comparators[0], ast.Constant) and isinstance(t.comparators[0].value, int):
-                    sl = t.left.args[0].slice
-                    k = t.comparators[0].value
-                    op = type(t.ops[0])
-                    if op is ast.Gt:
-                        least = k + 1
-                    elif op is ast.GtE:
-                        least = k
-                    else:
-                        odd.append(stmt_text(t))
-                        continue
-                    if isinstance(sl, ast.Constant) and sl.value in (0, 2):
-                        fields['minutes' if sl.value == 0 else 'seconds'] = least * 10      # a tens digit
-                    elif isinstance(sl, ast.Slice) and isinstance(sl.upper, ast.Constant):
-                        lo = sl.lower.value if isinstance(sl.lower, ast.Constant) else 0
-                        if (lo, sl.upper.value) == (0, 2):
-                            fields['minutes'] = least
-                        elif (lo, sl.upper.value) == (2, 4):
-                            fields['seconds'] = least
-                        else:
-                            odd.append(stmt_text(t))
-                    else:
-                        odd.append(stmt_text(t))
-        if prec is not None and (fields or odd):
-            out.append((f, prec, fields, odd))
-    return out
-
-
-def validator_rules(repo, rep):
-    vs = validators(repo)
-    key = 'R-SIBLING::geodepy/angles.py::hp-validators'
-    if len(vs) < 2:
-        rep.undecided('R-SIBLING', key, 'geodepy/angles.py:1', 'fewer than two HP-notation validators found (%d)' % len(vs))
-        return
-    ref = None
-    for f, prec, fields, odd in vs:
-        rep.analysed(f)
-        k = key + '::' + f.qualname
-        w = where(f, f.node)
-        if odd:
-            rep.undecided('R-SIBLING', k, w, '%s: validity test not in a recognised form: %s' % (f.qualname, odd))
-            continue
-        if fields != {'minutes': 60, 'seconds': 60}:
-            rep.violated('R-SIBLING', k, w, '%s does not reject exactly the HP values whose minutes or seconds field is 60 or more: it rejects minutes >= %s, seconds >= %s' % (
-                f.qualname, fields.get('minutes', 'never'), fields.get('seconds', 'never')),
-                expected="{'minutes': 60, 'seconds': 60}", actual=str(fields))
-            continue
-        if prec > 13:
-            rep.violated('R-SIBLING', k, w, '%s validates HP notation on %d decimals: beyond the 13 places the module documents for its doubles, binary noise reaches the '
-                         'digit test (10.1 prints as 10.09999999999999964 and is rejected as "3rd decimal place greater than 5")' % (f.qualname, prec),
-                         expected='precision <= 13 and equal in all validators', actual='%d' % prec)
-            continue
-        if ref is None:
-            ref = (f, prec)
-            rep.holds('R-SIBLING', k, w, '%s rejects minutes/seconds fields >= 60 of the %d-decimal rendering' % (f.qualname, prec))
-        elif prec != ref[1]:
-            rep.violated('R-SIBLING', k, w, '%s validates on %d decimals but %s on %d: one rejects values the other accepts' % (f.qualname, prec, ref[0].qualname, ref[1]),
-                         expected=str(ref[1]), actual=str(prec))
-        else:
-            rep.holds('R-SIBLING', k, w, '%s rejects minutes/seconds fields >= 60 of the %d-decimal rendering (same as %s)' % (f.qualname, prec, ref[0].qualname))
-
-
 def carry_rule(repo, rep):
     f = repo.func('geodepy.angles', 'dec2hp')
     rep.analysed(f)
@@ -467,14 +386,403 @@ def carry_rule(repo, rep):
                      'which is not valid HP notation (hp2dec rejects it)', expected='if minute == 60: minute = 0; degree += 1', actual='no test of %s against 60 after "%s += 1"' % (mvar, mvar))
 
 
+# ------------------------------------------------------------------------------------------------ digit strings (hp2dec, dec2hp) and field extraction
+DEC2HP_REF = '''
+def dec2hp_ref(dec):
+    minute, second = divmod(abs(dec) * 3600, 60)
+    degree, minute = divmod(minute, 60)
+    if round(second, 9) == 60:
+        second = 0
+        minute += 1
+        if minute == 60:
+            minute = 0
+            degree += 1
+    return int(degree) + int(minute) / 100 + second / 10000
+'''
+
+
+def ulp_places(m_hi, open_hi):
+    """largest P such that a double of magnitude up to m_hi (exclusive when open_hi) still determines P decimals: 10^-P > ulp"""
+    import math
+    m = m_hi
+    e = math.floor(math.log2(float(m)))
+    if open_hi and 2 ** e == m:
+        e -= 1
+    ulp = F(2) ** (e - 52)
+    p = 0
+    while F(1, 10 ** (p + 1)) > ulp:
+        p += 1
+    return p
+
+
+HP_READERS = [('hp2dec', 'value'), ('hp2dms', 'dms'), ('hp2ddm', 'ddm'), ('HPAngle.__init__', 'validate')]
+HP_MAX = F(720)
+PLACES_WITNESS = ('hp2dec(719.06) raised "Invalid HP Notation: 3rd decimal place greater than 5" on the code as found: doubles from 512 up are 1.1e-13 apart, '
+                  "f'{719.06:.13f}' is '719.0599999999999'")
+
+
+def cond_value(c, env):
+    """truth value of a condition normal form under an assignment {atom id: Fraction} of its digit atoms; None when not evaluable"""
+    if isinstance(c, Bool):
+        return c.b
+    a = _single_atom(c) if isinstance(c, Rat) else None
+    if a is None or a.kind != 'fn':
+        return None
+
+    def num(r):
+        if not isinstance(r, Rat):
+            return None
+        return alg.subst(r, dict((k, C(v)) for k, v in env.items())).as_fraction()
+    if a.name in ('lt', 'le', 'eq', 'ne', 'gt', 'ge') and len(a.args) == 2:
+        l, r = num(a.args[0]), num(a.args[1])
+        if l is None or r is None:
+            return None
+        return {'lt': l < r, 'le': l <= r, 'eq': l == r, 'ne': l != r, 'gt': l > r, 'ge': l >= r}[a.name]
+    if a.name in ('and', 'or'):
+        vs = [cond_value(x, env) for x in a.args]
+        if any(v is None for v in vs):
+            return None
+        return all(vs) if a.name == 'and' else any(vs)
+    if a.name == 'not':
+        v = cond_value(a.args[0], env)
+        return None if v is None else not v
+    return None
+
+
+def digit_rules(repo, rep):
+    """the string-based conversions as positional decimal arithmetic: every slice, width and join of the digit strings, per magnitude regime"""
+    from ..digits import DigitEvaluator, fdigit, fint
+    m = repo.module('geodepy.angles')
+    x = Rat.sym('x')
+    ax = alg.fabs(x)
+    rep.trust('format(x, ".Pf") = signed integer part, point, P digits; format(v, "0W.Pf") has W-P-1 zero-filled integer digits when v fits; '
+              'formatting to P places denotes the value itself up to 0.5e-P (within the property tolerance for P >= 9 places of a second, 12 of an HP number)')
+    rep.trust('IEEE double: values in [2^e, 2^(e+1)) are 2^(e-52) apart; a decimal written with P places is recovered by rendering to P places iff 10^-P > that spacing')
+
+    def evaluate(q, mag):
+        opq = {'DMSAngle.__init__', 'DDMAngle.__init__'}
+        ev = DigitEvaluator(repo, opaque=opq, summaries={'DMSAngle.__init__': _capture, 'DDMAngle.__init__': _capture})
+        ev.magnitude = (x, mag)
+        if q == 'HPAngle.__init__':
+            c = m.classes['HPAngle']
+            f = c.init()
+            got = ev.construct(c, [x], {}, None)
+        else:
+            f = m.func(q)
+            got = ev.call_function(f, {f.params[0].name: x})
+        return f, ev, got
+    # the magnitudes the code itself distinguishes
+    thresholds = set()
+    for q, kind in HP_READERS:
+        f, ev, got = evaluate(q, F(100))
+        thresholds |= set(t for t in ev.thresholds if 0 < t < HP_MAX)
+    cuts = [F(0)] + sorted(thresholds) + [HP_MAX]
+    regimes = []
+    for i in range(len(cuts) - 1):
+        lo, hi = cuts[i], cuts[i + 1]
+        last = i == len(cuts) - 2
+        regimes.append(('%s <= |hp| %s %s' % (lo, '<=' if last else '<', hi), (lo + hi) / 2, ulp_places(hi, not last)))
+    for q, kind in HP_READERS:
+        for label, mag, pmax in regimes:
+            f, ev, got = evaluate(q, mag)
+            rep.analysed(f)
+            w = where(f, f.node)
+            tag = '[%s]' % label
+            specs = [sp for fn, sp, nd in ev.formats if re.match(r'^\.(\d+)f$', sp)]
+            key = 'R-FORMAT::geodepy/angles.py::%s::places%s' % (q, tag)
+            if ev.string_problems:
+                k, nd, msg = ev.string_problems[0]
+                rep.violated('R-DIGITS', 'R-DIGITS::geodepy/angles.py::%s::string%s' % (q, tag), where(f, nd), '%s parses a malformed number: %s' % (q, msg))
+                continue
+            if len(set(specs)) != 1:
+                rep.undecided('R-FORMAT', key, w, '%s does not read the HP number through exactly one ".Pf" rendering (found %s)' % (q, sorted(set(specs))))
+                continue
+            P = int(specs[0][1:-1])
+            need = min(13, pmax)
+            if P > pmax:
+                rep.violated('R-FORMAT', key, w, '%s renders the HP number with %d decimals for %s, where a double only determines %d: binary noise reaches the digit fields (%s)' % (
+                    q, P, label, pmax, PLACES_WITNESS), expected='.%df for this magnitude' % need, actual='.%df' % P)
+            elif P < need:
+                rep.violated('R-FORMAT', key, w, '%s renders the HP number with %d decimals for %s: HP values written with %d decimals lose digits (1e-9" resolution needs 13 where the double '
+                             'holds them, 1e-8" tolerance needs 12)' % (q, P, label, need), expected='.%df' % need, actual='.%df' % P)
+            else:
+                rep.holds('R-FORMAT', key, w, '%s reads %d decimals for %s (a double determines %d there)' % (q, P, label, pmax))
+            # the digit atoms of this rendering: of x or of |x|
+            base = None
+            for cand in (ax, x):
+                probe = fdigit(cand, P, 1)
+                pid = list(probe.atoms(deep=False))[0]
+                holder = got if isinstance(got, Rat) else None
+                base = base or cand
+            d = None
+            # find which argument the rendering was applied to by looking at the atoms of the raise conditions / result
+            def uses(val, cand):
+                probe_ids = set(list(fdigit(cand, P, k).atoms(deep=False))[0] for k in range(1, P + 1)) | set(list(fint(cand, P).atoms(deep=False)))
+                seen = set()
+
+                def walk(v):
+                    if isinstance(v, Rat):
+                        seen.update(v.atoms(deep=True))
+                    elif isinstance(v, Tup):
+                        for y in v.items:
+                            walk(y)
+                    elif isinstance(v, IteV):
+                        walk(v.cond); walk(v.a); walk(v.b)
+                walk(val)
+                for fn_, c_, n_ in ev.raise_conds:
+                    walk(c_)
+                return bool(probe_ids & seen)
+            arg = ax if uses(got, ax) else x
+            d = lambda k: fdigit(arg, P, k)
+            mm = C(10) * d(1) + d(2)
+            sec = C(10) * d(3) + d(4)
+            for k in range(5, P + 1):
+                sec = sec + d(k) / C(10 ** (k - 4))
+            deg = alg.fabs(fint(arg, P))
+            fkey = 'R-DIGITS::geodepy/angles.py::%s::fields%s' % (q, tag)
+            if kind == 'value':
+                lv = ite_leaves(got) if isinstance(got, Rat) else []
+                if len(lv) != 2:
+                    rep.undecided('R-DIGITS', fkey, w, '%s is not "v if hp >= 0 else -v": %s' % (q, show(got, 2, 160)))
+                else:
+                    check_equal(rep, 'R-DIGITS', fkey, w, lv[0], deg + mm / C(60) + sec / C(3600),
+                                '%s = |DDD| + MM/60 + SS.s/3600 with MM = decimals 1-2, SS = decimals 3-4, s = decimals 5-%d of the rendering' % (q, P))
+                    check_equal(rep, 'R-SIBLING', 'R-SIBLING::geodepy/angles.py::%s::digits-sign%s' % (q, tag), w, lv[1], -lv[0], '%s: negative branch is the negated positive branch' % q)
+            elif kind in ('dms', 'ddm'):
+                lv = [got.a, got.b] if isinstance(got, IteV) else ([got, got] if isinstance(got, Tup) else [])
+                if len(lv) != 2 or not all(isinstance(z, Tup) for z in lv):
+                    rep.undecided('R-DIGITS', fkey, w, '%s: constructor arguments not captured' % q)
+                else:
+                    want = [deg, mm, sec] if kind == 'dms' else [deg, mm + sec / C(60)]
+                    names = ['degree', 'minute', 'second'] if kind == 'dms' else ['degree', 'minute']
+                    for i_, nm in enumerate(names):
+                        gi = lv[0].items[i_]
+                        if nm == 'degree' and isinstance(gi, Rat) and alg.decide_equal(gi, fint(arg, P)) == 'equal' and arg is ax:
+                            gi = alg.fabs(gi)     # integer part of the rendering of |hp| is non-negative
+                        check_equal(rep, 'R-DIGITS', fkey + '::' + nm, w, gi, want[i_],
+                                    '%s %s field from the decimals of the rendering (MM = decimals 1-2, SS.s = decimals 3-%d)' % (q, nm, P))
+                    same = all(compare_values(a_, b_) == 'equal' for a_, b_ in zip(lv[0].items[:len(names)], lv[1].items[:len(names)]))
+                    flags = (lv[0].items[-1], lv[1].items[-1])
+                    if isinstance(got, Tup) and isinstance(flags[0], IteV) and isinstance(flags[0].a, Bool) and isinstance(flags[0].b, Bool):
+                        # the two constructor calls were merged field by field: the flag is ite(hp >= 0, True, False)
+                        nonneg = ev.compare(ast.GtE(), x, C(0))
+                        if compare_values(flags[0].cond, nonneg) == 'equal':
+                            flags = (flags[0].a, flags[0].b)
+                    skey = 'R-SIBLING::geodepy/angles.py::%s::digits-sign%s' % (q, tag)
+                    if same and isinstance(flags[0], Bool) and isinstance(flags[1], Bool) and flags[0].b and not flags[1].b:
+                        rep.holds('R-SIBLING', skey, w, '%s: same fields with positive=True for hp >= 0, positive=False otherwise' % q)
+                    else:
+                        rep.violated('R-SIBLING', skey, w, '%s: the two sign branches do not build the same fields with opposite flags' % q)
+            # validators: the rejected set is exactly {minutes field >= 60 or seconds field >= 60}
+            if kind in ('value', 'validate'):
+                conds = [c_ for fn_, c_, n_ in ev.raise_conds if fn_ in (q, q.split('.')[-1], f.qualname)]
+                vkey = 'R-SIBLING::geodepy/angles.py::hp-validators::%s%s' % (q, tag)
+                ids = [list(d(k).atoms(deep=False))[0] for k in range(1, 5)]
+                others = set()
+                for c_ in conds:
+                    if isinstance(c_, Rat):
+                        others |= set(c_.atoms(deep=True))
+                others -= set(ids)
+                other_digits = [o_ for o_ in others if alg.TABLE.atoms[o_].kind == 'fn' and alg.TABLE.atoms[o_].name == 'fdigit']
+                bad = None
+                undec = False
+                deps = []
+                for c_ in conds:
+                    a_ids = set(c_.atoms(deep=True)) if isinstance(c_, Rat) else set()
+                    deps.append([i_ for i_ in ids + other_digits if i_ in a_ids])
+                cache = {}
+
+                def cval(n_, env):
+                    kk = (n_,) + tuple(env[i_] for i_ in deps[n_])
+                    if kk not in cache:
+                        cache[kk] = cond_value(conds[n_], dict((i_, env[i_]) for i_ in deps[n_]))
+                    return cache[kk]
+                if not conds:
+                    rep.violated('R-SIBLING', vkey, w, '%s never rejects an HP value: minutes / seconds fields of 60 or more are accepted' % q,
+                                 expected='raise for MM >= 60 or SS >= 60', actual='no raising test')
+                    continue
+                for d1 in range(10):
+                    for d2 in range(10):
+                        for d3 in range(10):
+                            for d4 in range(10):
+                                for fill in ((0,), (9,)) if other_digits else ((0,),):
+                                    env = dict(zip(ids, (F(d1), F(d2), F(d3), F(d4))))
+                                    for o_ in other_digits:
+                                        env[o_] = F(fill[0])
+                                    vals = [cval(n_, env) for n_ in range(len(conds))]
+                                    if any(v is None for v in vals):
+                                        undec = True
+                                        continue
+                                    rejected = any(vals)
+                                    want_rej = (10 * d1 + d2 >= 60) or (10 * d3 + d4 >= 60)
+                                    if rejected != want_rej and bad is None:
+                                        bad = (d1, d2, d3, d4, rejected)
+                if bad is not None:
+                    d1, d2, d3, d4, rj = bad
+                    rep.violated('R-SIBLING', vkey, w, '%s %s the HP decimals .%d%d%d%d (minutes %d%d, seconds %d%d): exactly the values with a minutes or seconds field of 60 or more have to be rejected' % (
+                        q, 'rejects' if rj else 'accepts', d1, d2, d3, d4, d1, d2, d3, d4), expected='reject iff MM >= 60 or SS >= 60', actual='%s .%d%d%d%d' % ('rejects' if rj else 'accepts', d1, d2, d3, d4))
+                elif undec:
+                    rep.undecided('R-SIBLING', vkey, w, '%s: a validity test could not be evaluated over the digit domain' % q)
+                else:
+                    rep.holds('R-SIBLING', vkey, w, '%s rejects exactly the renderings whose minutes or seconds field is 60 or more (decided over all digit values)' % q)
+    # ---- dec2hp: the HP number assembled as a string
+    f = m.func('dec2hp')
+    rep.analysed(f)
+    w = where(f, f.node)
+    ev = DigitEvaluator(repo)
+    got = ev.call_function(f, {f.params[0].name: x})
+    key = 'R-DIGITS::geodepy/angles.py::dec2hp'
+    if ev.string_problems:
+        k, nd, msg = ev.string_problems[0]
+        rep.violated('R-DIGITS', key + '::string', where(f, nd), 'dec2hp builds a malformed number: ' + msg, expected='DDD.MMSSsssssssss', actual=msg[:160])
+    else:
+        lv = ite_leaves(got) if isinstance(got, Rat) else []
+        ref = Oracle(DEC2HP_REF).call('dec2hp_ref', dec=x)
+        if len(lv) != 2:
+            rep.undecided('R-DIGITS', key, w, 'dec2hp is not "v if dec >= 0 else -v": %s' % show(got, 2, 160))
+        else:
+            check_equal(rep, 'R-DIGITS', key + '::assembly', w, lv[0], ref,
+                        'float(f"{D}.{MM}{SSsss}") = D + MM/100 + SS.sss/10000: the minutes fill exactly two digits and the seconds start exactly two digits later')
+            check_equal(rep, 'R-SIBLING', 'R-SIBLING::geodepy/angles.py::dec2hp::digits-sign', w, lv[1], -lv[0], 'dec2hp: negative branch is the negated positive branch')
+        for fn, sp, nd in ev.formats:
+            if fn != 'dec2hp':
+                continue
+            mm_ = re.match(r'^0(\d+)\.(\d+)f$', sp)
+            if mm_:
+                p = int(mm_.group(2))
+                k2 = 'R-FORMAT::geodepy/angles.py::dec2hp::second-places'
+                if p >= 9:
+                    rep.holds('R-FORMAT', k2, where(f, nd), 'seconds written with %d decimals (0.5e-%d" rounding, tolerance 1e-8")' % (p, p))
+                else:
+                    rep.violated('R-FORMAT', k2, where(f, nd), 'seconds written with %d decimals: rounding error 0.5e-%d" exceeds the 1e-8" tolerance' % (p, p), expected='>= 9', actual=str(p))
+    # ---- sibling rule: how positional fields are taken out of an HP number
+    extraction_rules(repo, rep, m)
+    rep.floor('R-DIGITS', 8, 'field cutting of hp2dec / hp2dms / hp2ddm per magnitude regime, assembly of dec2hp, field extraction of the hp2* functions')
+
+
+HP_WITNESS = 'hp2dms(259.02) = 259d 01m 99.99999999971s (259.0444 deg, 40" off 259d 02m 00s) because 259.02 * 1000 = 259019.99999999997'
+
+
+def extraction_rules(repo, rep, m):
+    """HP -> value is discontinuous at every field boundary (the digits are re-weighted 1/100 -> 1/60), so a floor / divmod / int applied to a
+    binary-float multiple of the HP number lands in the wrong field when the product falls an ulp below the boundary.  The module states
+    this itself (hp2dec, dec2hp, HPAngle: 'parse string to avoid precision problems with floating point ops and base 10 numbers').
+    Rule: in every function whose source notation is HP, the first positional extraction acts on the decimal rendering (string path) or on
+    a value rounded (round / numpy.round) to at most 9 decimals after scaling; siblings must agree."""
+    n = 0
+    for name, f in sorted(m.functions.items()):
+        if not name.startswith('hp2'):
+            continue
+        p0 = f.params[0].name if f.params else None
+        if p0 is None:
+            continue
+        state = {p0: 'raw'}      # raw: binary float carrying decimal fields; safe: rounded / integral / from a string; other names untracked
+        found = []               # (node, verdict, text)
+
+        def kind(e):
+            """'raw' | 'safe' | None for an expression"""
+            if isinstance(e, ast.Name):
+                return state.get(e.id)
+            if isinstance(e, ast.Constant):
+                return None
+            if isinstance(e, ast.Call):
+                fn = e.func.id if isinstance(e.func, ast.Name) else (e.func.attr if isinstance(e.func, ast.Attribute) else '')
+                if fn in ('abs', 'float', 'fabs', 'absolute', 'array', 'asarray') and e.args:
+                    return kind(e.args[0])
+                if fn == 'round' and isinstance(e.func, ast.Attribute) and not isinstance(e.func.value, ast.Name):
+                    # (expr).round(n)
+                    k = kind(e.func.value)
+                    if k == 'raw':
+                        nd = e.args[0].value if e.args and isinstance(e.args[0], ast.Constant) else None
+                        return 'safe' if isinstance(nd, int) and nd <= 9 else 'raw'
+                    return k
+                if fn in ('round', 'around', 'round_') and e.args:
+                    k = kind(e.args[0])
+                    if k == 'raw':
+                        nd = None
+                        if len(e.args) > 1 and isinstance(e.args[1], ast.Constant):
+                            nd = e.args[1].value
+                        for kw in e.keywords:
+                            if kw.arg in ('ndigits', 'decimals') and isinstance(kw.value, ast.Constant):
+                                nd = kw.value.value
+                        return 'safe' if isinstance(nd, int) and nd <= 9 else 'raw'
+                    return k
+                if fn in ('int', 'floor', 'trunc') and e.args:
+                    k = kind(e.args[0])
+                    if k == 'raw':
+                        found.append((e, 'bad', stmt_text(e)))
+                    return 'safe' if k else None
+                if fn == 'divmod' and len(e.args) == 2:
+                    k = kind(e.args[0])
+                    if k == 'raw':
+                        found.append((e, 'bad', stmt_text(e)))
+                    elif k == 'safe':
+                        found.append((e, 'ok', stmt_text(e)))
+                    return 'safe' if k else None
+                return None
+            if isinstance(e, ast.JoinedStr) or (isinstance(e, ast.Call) and getattr(e.func, 'attr', '') == 'format'):
+                return None
+            if isinstance(e, ast.BinOp):
+                a, b = kind(e.left), kind(e.right)
+                if isinstance(e.op, (ast.FloorDiv, ast.Mod)):
+                    if a == 'raw':
+                        found.append((e, 'bad', stmt_text(e)))
+                    elif a == 'safe':
+                        found.append((e, 'ok', stmt_text(e)))
+                    return 'safe' if a else None
+                if 'raw' in (a, b):
+                    return 'raw'
+                if 'safe' in (a, b):
+                    return 'safe'
+                return None
+            if isinstance(e, ast.UnaryOp):
+                return kind(e.operand)
+            return None
+        strings = False
+        for st in ast.walk(f.node):
+            if isinstance(st, ast.FormattedValue) and isinstance(st.value, ast.Name) and state.get(st.value.id) == 'raw' and st.format_spec is not None:
+                strings = True
+        for st in f.node.body:
+            for sub in ast.walk(st):
+                if isinstance(sub, ast.Assign):
+                    k = kind(sub.value)
+                    for t in sub.targets:
+                        if isinstance(t, ast.Name):
+                            if k:
+                                state[t.id] = k
+                            elif t.id in state and t.id != p0:
+                                del state[t.id]
+                        elif isinstance(t, ast.Tuple) and k:
+                            for el in t.elts:
+                                if isinstance(el, ast.Name):
+                                    state[el.id] = 'safe'
+                elif isinstance(sub, (ast.Return, ast.Expr)) and sub.value is not None:
+                    kind(sub.value)
+        key = 'R-DIGITS::geodepy/angles.py::%s::extraction' % name
+        bad = [x for x in found if x[1] == 'bad']
+        ok = [x for x in found if x[1] == 'ok']
+        if bad:
+            n += 1
+            rep.violated('R-DIGITS', key, where(f, bad[0][0]), '%s takes the HP fields by `%s` on an unrounded binary-float multiple of the HP number; its siblings (hp2dec, dec2hp, HPAngle) '
+                         'cut the decimal rendering for exactly this reason. Witness on the code as found: %s' % (name, bad[0][2][:70], HP_WITNESS),
+                         expected='fields from format(hp, ".13f") or from round(scaled, <= 9)', actual=bad[0][2][:120])
+        elif strings:
+            n += 1
+            rep.holds('R-DIGITS', key, where(f, f.node), '%s cuts its fields out of the decimal rendering of the HP number' % name)
+        elif ok:
+            n += 1
+            rep.holds('R-DIGITS', key, where(f, ok[0][0]), '%s extracts its fields from a value rounded to <= 9 decimals after scaling' % name)
+    return n
+
+
 def run(repo, rep):
     alg.reset()
     rep.trust('notation type of a conversion is stated by its name (a2b) - the module\'s own documented convention')
     rep.trust('sv/alg.py normal forms for the linear forms; divmod kept as opaque floor/mod atoms')
     typing_rules(repo, rep)
     forms_rules(repo, rep)
-    validator_rules(repo, rep)
     carry_rule(repo, rep)
+    digit_rules(repo, rep)
 
 
 def controls(repo):
